@@ -30,9 +30,9 @@ func init() { core.Register(c01{}) }
 func (c01) ID() string { return "C01" }
 func (c01) Cases(tier string) int {
 	if tier == "thorough" {
-		return 200000
+		return 600000
 	}
-	return 4000
+	return 30000
 }
 func (c01) Describe() core.Info {
 	return core.Info{
@@ -229,10 +229,13 @@ func (c01) Run(cs any) core.Result {
 		return res
 	}
 	sig := fail.sig
-	min := shrinkProg(c, func(t progCase) bool {
-		s, f := c01Exec(t, engineStoreKinds, nil)
-		return s == "" && f != nil && f.sig == sig
-	})
+	min := c
+	if core.ShrinkAllowed(sig) {
+		min = shrinkProg(c, func(t progCase) bool {
+			s, f := c01Exec(t, engineStoreKinds, nil)
+			return s == "" && f != nil && f.sig == sig
+		})
+	}
 	msg := fail.msg
 	if _, f := c01Exec(min, engineStoreKinds, nil); f != nil {
 		msg = f.msg
